@@ -98,6 +98,17 @@ def run(ctx):
         try:
             target, before = make_target(d, kind, rng, "target")
             src_data, src_desc = C.start_file(rng, rng.choice(["fresh", "n3", "n14"]))
+            if op in ("copy", "copy-then-mutate") and rng.random() < 0.15:
+                # a LARGE original (several 64 KiB buffers) whose content is mostly zero bytes — a recording with silent channels:
+                # zeros at the very end, in the middle, everywhere
+                big = rng.choice([65536, 70000, 131072, 200000])
+                shape = rng.choice(["zero-tail", "zero-middle", "all-zero", "zero-head"])
+                noise = bytes(rng.randrange(1, 256) for _ in range(3000))
+                payload = {"zero-tail": noise + bytes(big), "zero-middle": noise + bytes(big) + noise, "all-zero": bytes(big + 3000),
+                           "zero-head": bytes(big) + noise}[shape]
+                blk = dict(C.opaque(rng), payload=payload)
+                src_data = C.mkfile(14, [blk])
+                src_desc = f"big({shape}, {len(src_data)} bytes)"
             src = os.path.join(d, "src.tdf")
             open(src, "wb").write(src_data)
             nodes = [n for n in [node(1, src_data), node(2, before)] if n]
